@@ -937,6 +937,7 @@ namespace
         std::map<long, Port<DInt>>               dports;    // node id -> dictionary output port
         std::map<long, Port<L2>>                 lports;    // node id -> two-element list output port
         std::map<long, Port<TSS<Int>>>           sports;    // node id -> set output port
+        std::map<long, Port<TSL<TS<Int>, std::size_t{3}>>> l3ports;   // node id -> three-element list output port
         std::optional<P>                         key;       // the `key` port of a mapped child graph
         std::map<long, std::shared_ptr<void>>    feedbacks; // node id -> feedback handle
     };
@@ -996,6 +997,48 @@ namespace
         {
             Env env{w, {a0, a1}};
             return *interpret(env, g_scn->graphs.at("g" + std::to_string(K)));
+        }
+    };
+
+    // sub-graphs whose result is a three-element list assembled from three separate ports (`out x,y,z`): the result of
+    // the nested / switched node is then a forwarding TREE with three leaves
+    using L3S = TSL<TS<Int>, std::size_t{3}>;
+    using L3P = Port<L3S>;
+    L3P interpret3(Env &env, const GraphSpec &g)
+    {
+        static_cast<void>(interpret(env, GraphSpec{g.name, g.nin, g.stmts, ""}));
+        auto outs = split(g.out, ',');
+        while (outs.size() < 3) { outs.push_back(outs.back()); }
+        return stdlib::to_tsl<TS<Int>>(env.w, resolve(env, outs[0]), resolve(env, outs[1]), resolve(env, outs[2]));
+    }
+    template <int K>
+    struct SubG0L
+    {
+        static constexpr auto name = "hgv_sub0l";
+        static L3P            compose(Wiring &w)
+        {
+            Env env{w, {}};
+            return interpret3(env, g_scn->graphs.at("g" + std::to_string(K)));
+        }
+    };
+    template <int K>
+    struct SubG1L
+    {
+        static constexpr auto name = "hgv_sub1l";
+        static L3P            compose(Wiring &w, P a0)
+        {
+            Env env{w, {a0}};
+            return interpret3(env, g_scn->graphs.at("g" + std::to_string(K)));
+        }
+    };
+    template <int K>
+    struct SubG2L
+    {
+        static constexpr auto name = "hgv_sub2l";
+        static L3P            compose(Wiring &w, P a0, P a1)
+        {
+            Env env{w, {a0, a1}};
+            return interpret3(env, g_scn->graphs.at("g" + std::to_string(K)));
         }
     };
 
@@ -1059,6 +1102,21 @@ namespace
         throw std::logic_error("hgv: unknown sub-graph mode " + how);
     }
 
+    L3P wire_sub3(Env &env, const std::string &how, int k, const std::vector<P> &in)
+    {
+        const auto &g = g_scn->graphs.at("g" + std::to_string(k));
+        Wiring     &w = env.w;
+        if (how == "inline3")
+        {
+            if (g.nin == 0) { return dispatch_slot<SubG0L>(k, [&]<typename G>() { return L3P{wire<G>(w)}; }); }
+            if (g.nin == 1) { return dispatch_slot<SubG1L>(k, [&]<typename G>() { return L3P{wire<G>(w, in[0])}; }); }
+            return dispatch_slot<SubG2L>(k, [&]<typename G>() { return L3P{wire<G>(w, in[0], in[1])}; });
+        }
+        if (g.nin == 0) { return dispatch_slot<SubG0L>(k, [&]<typename G>() { return L3P{nested_<G>(w)}; }); }
+        if (g.nin == 1) { return dispatch_slot<SubG1L>(k, [&]<typename G>() { return L3P{nested_<G>(w, in[0])}; }); }
+        return dispatch_slot<SubG2L>(k, [&]<typename G>() { return L3P{nested_<G>(w, in[0], in[1])}; });
+    }
+
     std::optional<P> interpret(Env &env, const GraphSpec &g)
     {
         Wiring &w = env.w;
@@ -1098,7 +1156,7 @@ namespace
             const std::string kind = l.pos.at(2);
             NodeSpec         &sp   = spec_of(id);
             std::vector<P>    in;
-            if (kind != "drec" && kind != "skeys" && kind != "srec" && kind != "map" && kind != "reduce" && kind != "rrec" && kind != "mesh" && kind != "elem" && kind != "dite")
+            if (kind != "drec" && kind != "elem3" && kind != "skeys" && kind != "srec" && kind != "map" && kind != "reduce" && kind != "rrec" && kind != "mesh" && kind != "elem" && kind != "dite")
             {
                 for (auto &r : sp.ins) { in.push_back(resolve(env, r)); }
             }
@@ -1189,6 +1247,33 @@ namespace
                 cases.reload_on_ticked = l.geti("reload", 0) != 0;
                 if (two) { env.ports.emplace(id, wire<stdlib::switch_>(w, in.at(0), cases, in.at(1), in.at(2)).as<TS<Int>>()); }
                 else { env.ports.emplace(id, wire<stdlib::switch_>(w, in.at(0), cases, in.at(1)).as<TS<Int>>()); }
+            }
+            else if (kind == "inline3" || kind == "nested3")
+            {
+                env.l3ports.emplace(id, wire_sub3(env, kind, static_cast<int>(l.geti("g", 0)), in));
+            }
+            else if (kind == "elem3")
+            {
+                env.ports.emplace(id, tsl_element(env.l3ports.at(std::stol(sp.ins.at(0))), static_cast<std::size_t>(l.geti("i", 0))));
+            }
+            else if (kind == "switch3")
+            {
+                // as `switch`, the branches return three-element lists
+                stdlib::SwitchCases cases;
+                const bool          two = in.size() > 2;
+                auto fn_of = [&](int k) -> WiredFn {
+                    if (two) { return dispatch_slot<SubG2L>(k, [&]<typename G>() { return fn<G>(); }); }
+                    return dispatch_slot<SubG1L>(k, [&]<typename G>() { return fn<G>(); });
+                };
+                for (auto &c : split(l.gets("cases", ""), ','))
+                {
+                    auto kv = split(c, ':');
+                    cases.cases.push_back(stdlib::SwitchCase{Value{Int{std::stol(kv.at(0))}}, fn_of(static_cast<int>(std::stol(kv.at(1))))});
+                }
+                if (l.has("dflt")) { cases.default_branch = fn_of(static_cast<int>(l.geti("dflt"))); }
+                cases.reload_on_ticked = l.geti("reload", 0) != 0;
+                if (two) { env.l3ports.emplace(id, wire<stdlib::switch_>(w, in.at(0), cases, in.at(1), in.at(2)).as<L3S>()); }
+                else { env.l3ports.emplace(id, wire<stdlib::switch_>(w, in.at(0), cases, in.at(1)).as<L3S>()); }
             }
             else if (kind == "reduce")
             {
